@@ -26,8 +26,8 @@ template <class T> static glm::vec<3, T> GV(const T* v) { glm::vec<3, T> r; r.x 
 template <class T> static glm::qua<T> GQ(const T* q) { glm::qua<T> r; r.w = q[0]; r.x = q[1]; r.y = q[2]; r.z = q[3]; return r; }
 
 #define REG2(fn, name, q, t, rule) \
-	static void fn##_f(pbt::Ctx& c) { static const CaseAlign al(name "/float", name "/float[" C04_CFG "]"); al.apply(c); fn<float>(c); } PBT_RANDOM(name "/float[" C04_CFG "]", fn##_f, q, t, rule); \
-	static void fn##_d(pbt::Ctx& c) { static const CaseAlign al(name "/double", name "/double[" C04_CFG "]"); al.apply(c); fn<double>(c); } PBT_RANDOM(name "/double[" C04_CFG "]", fn##_d, q, t, rule)
+	static void fn##_f(pbt::Ctx& c) { static const CaseAlign al(name "/float", name "/float/" C04_CFG); al.apply(c); fn<float>(c); } PBT_RANDOM(name "/float/" C04_CFG, fn##_f, q, t, rule); \
+	static void fn##_d(pbt::Ctx& c) { static const CaseAlign al(name "/double", name "/double/" C04_CFG); al.apply(c); fn<double>(c); } PBT_RANDOM(name "/double/" C04_CFG, fn##_d, q, t, rule)
 
 // last row and column of a homogeneous rotation must be exactly (0,0,0,1) (VALUE: a -0 is a zero)
 template <class T> static bool homogeneous_ok(const glm::mat<4, 4, T>& m) {
@@ -100,7 +100,7 @@ template <class T> static void euler12(pbt::Ctx& c) {
 		if (!(worst <= 1)) c.failk(key<T>(t.name, "product-of-single-axis-factors"), "%s(%s,%s)=%s but the product of the single-axis matrices is %s", t.name, fstr(a).c_str(), fstr(b).c_str(), mstr(m3_of(t.g)).c_str(), mstr(m3_of(t.own)).c_str());
 	}
 }
-REG2(euler12, "euler-one-two-axis", 300000, 20000000,
+REG2(euler12, "euler-one-two-axis", 300000, 7500000,
      "angle pairs (0, k pi/2 +- 2 ulps, k pi/2 +- 1e-9..1e-3, +-1e-9..1e-1, uniform [-2pi,2pi], table values, uniform [-1000,1000]) and an angular velocity; eulerAngleX/Y/Z, derivedEulerAngleX/Y/Z, orientate2, orientate3(angle) and the six "
      "two-axis builders entry by entry against the long-double coordinate rotations (relative 4-8 eps per entry, homogeneous part exact) and against GLM's own product of the single-axis matrices; non-trivial = both angles have |sin| > 1e-3");
 
@@ -184,7 +184,7 @@ template <class T> static void euler3(pbt::Ctx& c) {
 			c.failk(key<T>("orientate3(vec3)", "reference-product"), "orientate3((%s,%s,%s))=%s, Ry(z) Rx(x) Rz(y) = %s (err %.3Lg)", fstr(t[0]).c_str(), fstr(t[1]).c_str(), fstr(t[2]).c_str(), mstr(m3_of(o3)).c_str(), mstr(want2).c_str(), e3);
 	}
 }
-REG2(euler3, "euler-three-axis", 150000, 10000000,
+REG2(euler3, "euler-three-axis", 150000, 4000000,
      "angle triples from the angle generator, one third with the middle angle in a gimbal-lock neighbourhood (k pi/2 rounded, +- 2 ulps, +- 1e-9..1e-3); each case runs all twelve eulerAngleABC, yawPitchRoll, orientate3(vec3), orientate4: "
      "entries against the long-double product Ra Rb Rc (32 eps, homogeneous part exact) and against GLM's own eulerAngleA*eulerAngleB*eulerAngleC (48 eps); non-trivial = |sin| and |cos| of all three angles exceed 1e-3");
 
@@ -230,7 +230,7 @@ template <class T> static void eulerextract(pbt::Ctx& c) {
 			        ORDERS[o].name[0], ORDERS[o].name[1], ORDERS[o].name[2], mstr(RB).c_str(), mstr(rm).c_str(), er, tol);
 	}
 }
-REG2(eulerextract, "euler-extract", 150000, 10000000,
+REG2(eulerextract, "euler-extract", 150000, 4000000,
      "rotation matrices built by eulerAngleABC from generated triples (one third with the middle angle at k pi/2 rounded, +- 2 ulps, +- 1e-9..1e-3: both gimbal conventions) and, one case in four, mat4_cast of a unit quaternion of every class; "
      "each case runs all twelve extractEulerAngleABC: the extracted angles must be finite and rebuild the input matrix through eulerAngleABC and through the long-double product (64 eps + 4 x orthogonality defect of the input); "
      "non-trivial = all three source angles have |sin| > 1e-3 (quaternion source: at least three components above 1e-3)");
@@ -323,11 +323,11 @@ template <class T> static void rotatevec(pbt::Ctx& c) {
 			if (!within(c, "orientation maps Up to Normal err/tol", e, tolo))
 				c.failk(key<T>("orientation", "maps-up-to-normal"), "orientation(N=%s,Up=%s) maps Up to %s (err %.3Lg, tol %.3Lg)", astr(nm, 3).c_str(), astr(up, 3).c_str(), vstr(img).c_str(), e, tolo);
 			R od = mortho_defect(om);
-			if (!within(c, "orientation orthogonality err/tol", od, 32 * eps)) c.failk(key<T>("orientation", "orthogonal"), "orientation(N=%s,Up=%s)=%s is not orthogonal (defect %.3Lg)", astr(nm, 3).c_str(), astr(up, 3).c_str(), mstr(om).c_str(), od);
+			if (!within(c, "orientation orthogonality err/tol", od, 64 * eps)) c.failk(key<T>("orientation", "orthogonal"), "orientation(N=%s,Up=%s)=%s is not orthogonal (defect %.3Lg)", astr(nm, 3).c_str(), astr(up, 3).c_str(), mstr(om).c_str(), od);
 		}
 	}
 }
-REG2(rotatevec, "gtx-rotate-vector", 300000, 20000000,
+REG2(rotatevec, "gtx-rotate-vector", 300000, 7500000,
      "vec3/vec4/vec2 (mixed magnitude, small ints, axis-aligned, unit), an angle from the angle generator and a unit or non-unit axis (coordinate axis exactly / within 1e-9..1e-2 / random); rotateX/Y/Z, the 2D rotate and "
      "rotate(v,angle,axis) against the long-double coordinate rotation resp. Rodrigues' formula with the normalised axis; orientation(Normal,Up) must map Up onto Normal with an orthogonal matrix (conditioning 1/sin of their angle, "
      "identity when they agree); non-trivial = |sin(angle)| > 1e-3 and v not along the axis");
